@@ -60,8 +60,12 @@ class Catalogue:
         return self._eff[body.key]
 
 
+UNIT_ADTS = set()  # crate structs without fields (filled by Facts): zero-sized, they carry no state
+
+
 def is_phantom(fty):
-    return fty["s"].startswith("std::marker::PhantomData")
+    return fty["s"].startswith("std::marker::PhantomData") or (fty.get("adt") in UNIT_ADTS and fty.get("k") == "adt"
+                                                                and not fty.get("ref"))
 
 
 SCALARS = {"usize", "u8", "u16", "u32", "u64", "u128", "isize", "i8", "i16", "i32", "i64", "i128",
@@ -151,6 +155,34 @@ SIZED_CTORS = {("Vec", "with_capacity"), ("Storage", "with_capacity"),
 STAT_CTORS = {("Codec", "new_from"), ("Huffman", "create_from")}
 
 
+_DEFAULT_VARIANT = {}
+
+
+def _default_variant(F, adt):
+    """name of the unit variant `<adt as Default>::default()` returns, if that is what it does"""
+    key = (id(F), adt)
+    if key in _DEFAULT_VARIANT:
+        return _DEFAULT_VARIANT[key]
+    out = None
+    a = F.adts.get(adt) if hasattr(F, "adts") else None
+    if a is not None and a.get("kind") == "enum":
+        for b in F.bodies.values():
+            if b.name == "default" and (b.owner.get("trait") or "").split("::")[-1] == "Default" and \
+                    (b.owner.get("impl_self") or {}).get("adt") == adt:
+                names = set()
+                for blk in b.blocks:
+                    for st in blk["stmts"]:
+                        if st["k"] == "assign" and st["place"]["l"] == 0 and not st["place"]["p"] and \
+                                st["rv"]["k"] == "aggregate" and st["rv"].get("adt") == adt and not st["rv"]["ops"]:
+                            names.add(st["rv"]["variant_name"])
+                if len(names) == 1:
+                    out = next(iter(names))
+    if len(_DEFAULT_VARIANT) > 64:
+        _DEFAULT_VARIANT.clear()
+    _DEFAULT_VARIANT[key] = out
+    return out
+
+
 def absval(ctx, origin, depth=0):
     """abstract value of an origin (root, path) in ctx"""
     root, path = origin
@@ -187,6 +219,8 @@ def absval(ctx, origin, depth=0):
                 return ("empty",)
             if nm == "PhantomData":
                 return ("phantom",)
+            if not ops and _default_variant(ctx.body.facts, rv["adt"]) == rv["variant_name"]:
+                return ("empty",)  # the unit variant the enum's Default impl returns (`Stride::Empty`)
             return ("agg", nm, rv["variant_name"], tuple(ops))
         return ("agg", rv["agg"], "", tuple(ops))
     if root[0] == "arg":
